@@ -329,6 +329,9 @@ func Enumerate(corpus []*CorpusFile, tier string, seed uint64, visit func(idx in
 				// every truncation point, under 3 rotating deliveries
 				for k := 0; k < len(base); k++ {
 					k := k
+					if !keepOffset(f, k, len(base)) {
+						continue
+					}
 					modes := deliveryModes(k, choice.Derive(hseed, fmt.Sprint("t", k)))
 					for _, mi := range []int{0, 1 + k%3, 4 + k%4} {
 						d := modes[mi]
@@ -340,6 +343,9 @@ func Enumerate(corpus []*CorpusFile, tier string, seed uint64, visit func(idx in
 				// line and token boundary
 				for k := 0; k <= len(base); k++ {
 					k := k
+					if !keepOffset(f, k, len(base)) {
+						continue
+					}
 					emit("R-ERR-AT", func() *Case {
 						return mkCase(dec, f, base, []string{fmt.Sprintf("R-ERR@%d", k)}, simio.Delivery{HasErr: true, ErrAt: k})
 					})
@@ -356,6 +362,9 @@ func Enumerate(corpus []*CorpusFile, tier string, seed uint64, visit func(idx in
 					repls = allBytes
 				}
 				for k := 0; k < len(base); k++ {
+					if f.Big && !(k < 300 || k%211 == 0) {
+						continue
+					}
 					for ri, rf := range repls {
 						k, ri := k, ri
 						nb := rf(base[k])
@@ -378,6 +387,9 @@ func Enumerate(corpus []*CorpusFile, tier string, seed uint64, visit func(idx in
 				// every line deleted / duplicated (ASCII part only)
 				for li, ln := range lineSpans(base[:asciiPart(kind, f, base)]) {
 					ln := ln
+					if f.Big && li > 40 && li%53 != 0 {
+						continue
+					}
 					for _, dup := range []bool{false, true} {
 						dup := dup
 						h := choice.Derive(hseed, fmt.Sprint("l", li, dup))
@@ -504,6 +516,23 @@ func Enumerate(corpus []*CorpusFile, tier string, seed uint64, visit func(idx in
 		}
 	}
 	return idx
+}
+
+// keepOffset: for a Big file, is offset k one of the enumerated ones?  Near every
+// multiple of 4096 and of 65536, near both ends, and every 97th offset.
+func keepOffset(f *CorpusFile, k, n int) bool {
+	if !f.Big {
+		return true
+	}
+	if k < 300 || k > n-300 || k%97 == 0 {
+		return true
+	}
+	for _, b := range []int{4096, 65536} {
+		if r := k % b; r < 24 || r > b-24 {
+			return true
+		}
+	}
+	return false
 }
 
 func lineSpans(b []byte) [][2]int {
